@@ -172,7 +172,7 @@ fn check_c10() {
 // ------------------------------------------------------------------------------------------------ C20
 fn check_c20() {
     let mut rng = Rng(12345);
-    for trial in 0..400 {
+    for trial in 0..1500 {
         let n = 2 + rng.below(6);
         let mut p = IntPartition::new();
         let mut q: Partition<usize> = Partition::new();
@@ -193,7 +193,9 @@ fn check_c20() {
                 3 => { hist.push("clone".into()); clone_at = Some((p.clone(), q.clone(), model.clone())); }
                 _ => {
                     hist.push("classes".into());
-                    let elms: Vec<usize> = (0..n).rev().collect();
+                    // a random subset of the universe in random order (possibly with repeats)
+                    let cnt = 1 + rng.below(n + 1);
+                    let elms: Vec<usize> = (0..cnt).map(|_| rng.below(n)).collect();
                     let mut exp: Vec<Vec<usize>> = vec![];
                     for &e in &elms { if let Some(c) = exp.iter_mut().find(|c| model[c[0]] == model[e]) { c.push(e); } else { exp.push(vec![e]); } }
                     let got = p.classes(&elms);
@@ -215,6 +217,29 @@ fn check_c20() {
                 if (qc.find(&x) == qc.find(&y)) != (mc[x] == mc[y]) { falsified("Partition::clone", format!("{:?}", hist), format!("clone changed with its original at ({},{})", x, y)); }
             } }
         }
+    }
+}
+
+fn check_c20_unions() {
+    // union-heavy sequences (no finds in between, so trees keep their shape and ranks differ): checked at the end only
+    let mut rng = Rng(777);
+    for trial in 0..30000 {
+        let n = 4 + rng.below(6);
+        let mut p = IntPartition::new();
+        let mut q: Partition<usize> = Partition::new();
+        let mut model: Vec<usize> = (0..n).collect();
+        let mut hist = vec![];
+        for _ in 0..(2 + rng.below(9)) {
+            let (a, b) = (rng.below(n), rng.below(n));
+            hist.push((a, b));
+            p.unite(a, b); q.unite(&a, &b);
+            let (la, lb) = (model[a], model[b]);
+            for x in model.iter_mut() { if *x == lb { *x = la; } }
+        }
+        for x in 0..n { for y in 0..x {
+            if (p.find(x) == p.find(y)) != (model[x] == model[y]) { falsified("IntPartition::unite / find", format!("unions {:?}", hist), format!("find({})==find({}) is {} expected {}", x, y, p.find(x) == p.find(y), model[x] == model[y])); }
+            if (q.find(&x) == q.find(&y)) != (model[x] == model[y]) { falsified("Partition::unite / find", format!("unions {:?}", hist), format!("find({})==find({}) is {} expected {}", x, y, q.find(&x) == q.find(&y), model[x] == model[y])); }
+        } }
     }
 }
 
@@ -437,7 +462,7 @@ fn main() {
     std::panic::set_hook(Box::new(|_| {}));
     match prop.as_str() {
         "C01" => check_c01(), "C02" => check_c02(), "C04" => check_c04(), "C05" => check_c05(),
-        "C10" => check_c10(), "C11" => check_c11(), "C18" => check_c18(), "C20" => check_c20(),
+        "C10" => check_c10(), "C11" => check_c11(), "C18" => check_c18(), "C20" => { check_c20(); check_c20_unions(); },
         _ => { eprintln!("unknown property"); std::process::exit(2); }
     }
     unsafe { println!("falsifier finished: {} discrepancies", COUNT); }
